@@ -22,8 +22,8 @@ type Storage struct {
 	// error - a short read, a foreign value under the key; Garbled counts those that met a record
 	GarbleGet map[int]bool
 	Garbled   int
-	Log                          []string
-	NoTTL                        bool // ignore TTLs (a backend that never expires)
+	Log       []string
+	NoTTL     bool // ignore TTLs (a backend that never expires)
 	// Retain: keep the value slice passed to Set and hand the same slice out from Get, as gofiber's in-process memory
 	// driver does (a caller that re-uses the buffer after Set, or writes into what Get returned, corrupts the record)
 	Retain bool
